@@ -424,3 +424,39 @@ Proof.
     change (nth (S i) (s :: srcs) (mksrc 0 0 0)) with (nth i srcs (mksrc 0 0 0)).
     change (qnth (x :: c) (S i)) with (qnth c i). apply IH; lia.
 Qed.
+
+(** a first read with the default strategy and no range: mean and ddof-1 deviation of the finite outcomes *)
+Lemma read_fresh_meanstd : forall f C normal s,
+  raw s = [] -> strat s = MeanStd -> xr s = None ->
+  let N := Z.to_nat (eff_size s) in
+  let k := length (srcs s) in
+  let Y := d_samples (compute_samples f C (srcs s) (rows_at normal (ncalls s) k N) N) in
+  snd (read f C normal s) = mean_std Y /\ raw (fst (read f C normal s)) = Y /\
+  ncalls (fst (read f C normal s)) = (ncalls s + k)%nat.
+Proof.
+  intros f C normal s He Hs Hx. cbv zeta.
+  destruct (read_after_empty f C normal s He) as [Hr Hc].
+  split; [|split; assumption].
+  unfold read. rewrite evaluate_unfold. simpl. rewrite regen_empty by assumption. simpl fst.
+  set (Y := d_samples _).
+  destruct s as [ar rh hd cm cmo cc stt cf x ow g nc sr un]. simpl in *. subst stt x.
+  unfold eval_core, set_caches, set_raw_new, raw. simpl.
+  rewrite app_nth2 by lia. rewrite Nat.sub_diag. simpl. reflexivity.
+Qed.
+
+Lemma chol_ok_pd : forall k C L, (1 <= k <= 3)%nat -> chol k C = CholOk L -> pd_minors k C.
+Proof.
+  intros k C L Hk H. destruct (chol_notpd_iff k C Hk) as [_ Hn].
+  (* decidable: minors are rationals *)
+  rewrite (pd_minors_rads k C Hk).
+  destruct k as [|[|[|[|k]]]]; try lia; simpl in H.
+  - destruct (positive (rad1 C)) eqn:P1; simpl in H; [|discriminate]. apply positive_iff in P1.
+    repeat split; intros; try assumption; lia.
+  - destruct (positive (rad1 C)) eqn:P1; simpl in H; [|discriminate]. apply positive_iff in P1.
+    destruct (positive (rad2 C)) eqn:P2; simpl in H; [|discriminate]. apply positive_iff in P2.
+    repeat split; intros; try assumption; lia.
+  - destruct (positive (rad1 C)) eqn:P1; simpl in H; [|discriminate]. apply positive_iff in P1.
+    destruct (positive (rad2 C)) eqn:P2; simpl in H; [|discriminate]. apply positive_iff in P2.
+    destruct (positive (rad3 C)) eqn:P3; simpl in H; [|discriminate]. apply positive_iff in P3.
+    repeat split; intros; assumption.
+Qed.
